@@ -1,20 +1,294 @@
-"""Path context: path condition, solver access, forking by decision prefix."""
+"""Path context: path condition, solver access, forking by decision prefix.
+
+The path condition has two parts: per-byte value sets ("masks": a 256-bit set for every free input byte, holding all
+unary constraints decided so far) and the z3 solver's assertions (every constraint that relates several variables).
+A condition over a single free byte that is not related to other variables by any solver assertion is decided
+exactly from its truth table and the byte's mask; everything else is decided by z3 under masks + assertions.
+Leaf obligations always go to z3 with the complete path condition.
+"""
 import time
 import z3
 from .vals import Infeasible, Unsupported
 
-STATS = {'checks': 0, 'solver_s': 0.0, 'decisions': 0, 'forks': 0, 'mask_hits': 0}
+STATS = {'checks': 0, 'solver_s': 0.0, 'decisions': 0, 'forks': 0, 'mask_decisions': 0}
 
 _simplify = z3.simplify
+FULL = (1 << 256) - 1
+
+# global caches (per process); entries keep the expression alive so that ast ids are not reused
+_TT = {}        # cond id -> (cond, var_id | None, truth table)
+_FV = {}        # expr id -> (expr, frozenset of var ids)
+_VARS = {}      # var id -> z3 const
 
 
-def zb(x):
-    """python int -> BitVecVal(8) passthrough for z3 terms"""
-    return x
+def free_vars(e):
+    eid = e.get_id()
+    r = _FV.get(eid)
+    if r is not None:
+        return r[1]
+    if z3.is_const(e):
+        if e.decl().kind() == z3.Z3_OP_UNINTERPRETED:
+            _VARS[eid] = e
+            s = frozenset((eid,))
+        else:
+            s = frozenset()
+    else:
+        s = frozenset()
+        for ch in e.children():
+            s = s | free_vars(ch)
+    _FV[eid] = (e, s)
+    return s
+
+
+def _range_tt(lo, hi):
+    if lo > hi:
+        return 0
+    return ((1 << (hi + 1)) - 1) & ~((1 << lo) - 1)
+
+
+def truth_table(cond):
+    """(var_id, tt) if `cond` is a predicate over exactly one 8-bit variable, else None"""
+    cid = cond.get_id()
+    r = _TT.get(cid)
+    if r is not None:
+        return r[1]
+    res = _tt(cond)
+    _TT[cid] = (cond, res)
+    return res
+
+
+def _is_var8(e):
+    return z3.is_const(e) and e.decl().kind() == z3.Z3_OP_UNINTERPRETED and z3.is_bv(e) and e.size() == 8
+
+
+def _tt(cond):
+    k = cond.decl().kind()
+    if k == z3.Z3_OP_NOT:
+        r = truth_table(cond.arg(0))
+        return None if r is None else (r[0], FULL & ~r[1])
+    if k in (z3.Z3_OP_AND, z3.Z3_OP_OR):
+        var, acc = None, (FULL if k == z3.Z3_OP_AND else 0)
+        for ch in cond.children():
+            r = truth_table(ch)
+            if r is None or (var is not None and r[0] != var):
+                return _tt_subst(cond)
+            var = r[0]
+            acc = (acc & r[1]) if k == z3.Z3_OP_AND else (acc | r[1])
+        return (var, acc) if var is not None else None
+    if k == z3.Z3_OP_EQ and cond.num_args() == 2:
+        a, b = cond.arg(0), cond.arg(1)
+        if _is_var8(a) and z3.is_bv_value(b):
+            free_vars(a)
+            return (a.get_id(), 1 << b.as_long())
+        if _is_var8(b) and z3.is_bv_value(a):
+            free_vars(b)
+            return (b.get_id(), 1 << a.as_long())
+        return _tt_subst(cond)
+    if k in (z3.Z3_OP_ULEQ, z3.Z3_OP_UGEQ, z3.Z3_OP_ULT, z3.Z3_OP_UGT):
+        a, b = cond.arg(0), cond.arg(1)
+        if k in (z3.Z3_OP_UGEQ, z3.Z3_OP_UGT):
+            a, b = b, a
+            k = z3.Z3_OP_ULEQ if k == z3.Z3_OP_UGEQ else z3.Z3_OP_ULT
+        strict = k == z3.Z3_OP_ULT
+        if _is_var8(a) and z3.is_bv_value(b):       # v <= c  /  v < c
+            free_vars(a)
+            c = b.as_long()
+            return (a.get_id(), _range_tt(0, c - 1 if strict else c))
+        if _is_var8(b) and z3.is_bv_value(a):       # c <= v  /  c < v
+            free_vars(b)
+            c = a.as_long()
+            return (b.get_id(), _range_tt(c + 1 if strict else c, 255))
+        return _tt_subst(cond)
+    if z3.is_bool(cond):
+        return _tt_subst(cond)
+    return None
+
+
+class _NoCompile(Exception):
+    pass
+
+
+_TAB = {}      # term id -> (term, 256-entry value table)
+_R256 = list(range(256))
+
+
+def _table(e):
+    """value table (indexed by the value of the single free byte) of a z3 term; memoised per sub-term"""
+    eid = e.get_id()
+    r = _TAB.get(eid)
+    if r is not None:
+        return r[1]
+    Z = z3
+    k = e.decl().kind()
+    if Z.is_bv_value(e):
+        t = [e.as_long()] * 256
+    elif Z.is_true(e):
+        t = [True] * 256
+    elif Z.is_false(e):
+        t = [False] * 256
+    elif Z.is_const(e) and k == Z.Z3_OP_UNINTERPRETED:
+        t = _R256
+    else:
+        cs = e.children()
+        ch = [_table(c) for c in cs]
+        n = len(ch)
+        if Z.is_bv(e):
+            w = e.size()
+            M = (1 << w) - 1
+        if k == Z.Z3_OP_BADD:
+            t = [sum(v) & M for v in zip(*ch)]
+        elif k == Z.Z3_OP_BSUB:
+            t = [(a - b) & M for a, b in zip(*ch)]
+        elif k == Z.Z3_OP_BMUL and n == 2:
+            t = [(a * b) & M for a, b in zip(*ch)]
+        elif k == Z.Z3_OP_BAND and n == 2:
+            t = [a & b for a, b in zip(*ch)]
+        elif k == Z.Z3_OP_BOR and n == 2:
+            t = [a | b for a, b in zip(*ch)]
+        elif k == Z.Z3_OP_BOR:
+            t = []
+            for v in zip(*ch):
+                r0 = 0
+                for y in v:
+                    r0 |= y
+                t.append(r0)
+        elif k == Z.Z3_OP_BXOR and n == 2:
+            t = [a ^ b for a, b in zip(*ch)]
+        elif k == Z.Z3_OP_BNOT:
+            t = [~a & M for a in ch[0]]
+        elif k == Z.Z3_OP_BNEG:
+            t = [-a & M for a in ch[0]]
+        elif k == Z.Z3_OP_BLSHR:
+            t = [(a >> b) if b < w else 0 for a, b in zip(*ch)]
+        elif k == Z.Z3_OP_BSHL:
+            t = [((a << b) & M) if b < w else 0 for a, b in zip(*ch)]
+        elif k == Z.Z3_OP_EXTRACT:
+            hi, lo = e.params()
+            mm = (1 << (hi - lo + 1)) - 1
+            t = [(a >> lo) & mm for a in ch[0]]
+        elif k == Z.Z3_OP_CONCAT:
+            ws = [c.size() for c in cs]
+            t = []
+            for v in zip(*ch):
+                r0 = 0
+                for y, cw in zip(v, ws):
+                    r0 = (r0 << cw) | y
+                t.append(r0)
+        elif k == Z.Z3_OP_ZERO_EXT:
+            t = ch[0]
+        elif k == Z.Z3_OP_ITE:
+            t = [a if c else b for c, a, b in zip(*ch)]
+        elif k == Z.Z3_OP_EQ:
+            t = [a == b for a, b in zip(*ch)]
+        elif k == Z.Z3_OP_DISTINCT and n == 2:
+            t = [a != b for a, b in zip(*ch)]
+        elif k == Z.Z3_OP_ULEQ:
+            t = [a <= b for a, b in zip(*ch)]
+        elif k == Z.Z3_OP_ULT:
+            t = [a < b for a, b in zip(*ch)]
+        elif k == Z.Z3_OP_UGEQ:
+            t = [a >= b for a, b in zip(*ch)]
+        elif k == Z.Z3_OP_UGT:
+            t = [a > b for a, b in zip(*ch)]
+        elif k == Z.Z3_OP_NOT:
+            t = [not a for a in ch[0]]
+        elif k == Z.Z3_OP_AND:
+            t = [all(v) for v in zip(*ch)]
+        elif k == Z.Z3_OP_OR:
+            t = [any(v) for v in zip(*ch)]
+        elif k == Z.Z3_OP_XOR and n == 2:
+            t = [bool(a) != bool(b) for a, b in zip(*ch)]
+        elif k == Z.Z3_OP_IMPLIES:
+            t = [(not a) or b for a, b in zip(*ch)]
+        else:
+            raise _NoCompile(str(e.decl()))
+    _TAB[eid] = (e, t)
+    return t
+
+
+def _tt_subst(cond):
+    fv = free_vars(cond)
+    if len(fv) != 1:
+        return None
+    vid = next(iter(fv))
+    v = _VARS[vid]
+    if not (z3.is_bv(v) and v.size() == 8):
+        return None
+    tt = 0
+    try:
+        tab = _table(cond)
+        for i in range(256):
+            if tab[i]:
+                tt |= 1 << i
+        return (vid, tt)
+    except _NoCompile:
+        pass
+    for i in range(256):
+        r = _simplify(z3.substitute(cond, (v, z3.BitVecVal(i, 8))))
+        if z3.is_true(r):
+            tt |= 1 << i
+        elif not z3.is_false(r):
+            return None
+    return (vid, tt)
+
+
+_PT = {}       # (term id, pred) -> (term, (var id, tt) | None)
+
+
+def _pred_tt(x, pred):
+    """truth table over the single free byte of term x for `value(x) in pred`"""
+    fv = free_vars(x)
+    if len(fv) != 1:
+        return None
+    vid = next(iter(fv))
+    v = _VARS[vid]
+    if not (z3.is_bv(v) and v.size() == 8):
+        return None
+    if x.get_id() == vid:
+        return (vid, pred)
+    try:
+        tab = _table(x)
+    except _NoCompile:
+        return None
+    tt = 0
+    for i in range(256):
+        if pred >> tab[i] & 1:
+            tt |= 1 << i
+    return (vid, tt)
+
+
+def mask_constraint(v, mask):
+    rs, i = [], 0
+    while i < 256:
+        if mask >> i & 1:
+            j = i
+            while j + 1 < 256 and mask >> (j + 1) & 1:
+                j += 1
+            rs.append((i, j))
+            i = j + 1
+        else:
+            i += 1
+    if not rs:
+        return z3.BoolVal(False)
+    terms = []
+    for lo, hi in rs:
+        if lo == hi:
+            terms.append(v == lo)
+        elif lo == 0:
+            terms.append(z3.ULE(v, hi))
+        elif hi == 255:
+            terms.append(z3.UGE(v, lo))
+        else:
+            terms.append(z3.And(z3.UGE(v, lo), z3.ULE(v, hi)))
+    return terms[0] if len(terms) == 1 else z3.Or(terms)
+
+
+class Cut(Exception):
+    """exploration stopped at the split depth; the prefix becomes a work item"""
 
 
 class Ctx:
-    def __init__(self, prefix=(), timeout_ms=60000, smtlog=None):
+    def __init__(self, prefix=(), timeout_ms=120000, smtlog=None, use_masks=True):
         self.prefix = list(prefix)
         self.path = []
         self.solver = z3.SolverFor('QF_BV')
@@ -25,13 +299,20 @@ class Ctx:
         self.nvars = 0
         self.inputs = {}           # name -> z3 var (harness inputs, for witnesses)
         self.smtlog = smtlog
-        self.cut_depth = None      # when set: stop (raise Cut) instead of deciding beyond this many decisions
+        self.cut_depth = None
         self.nchecks = 0
+        self.use_masks = use_masks
+        self.masks = {}            # var id -> 256-bit set of still possible values
+        self.dirty = set()         # var ids whose mask is not yet reflected in the solver
+        self.entangled = set()     # var ids occurring in multi-variable solver assertions
+        self.keep = []
 
     # ---- variables
     def byte(self, name):
         v = z3.BitVec(name, 8)
         self.inputs[name] = v
+        free_vars(v)
+        self.masks[v.get_id()] = FULL
         return v
 
     def bv(self, name, bits):
@@ -49,11 +330,16 @@ class Ctx:
         return z3.BitVec('%s!%d' % (tag, self.nvars), bits)
 
     # ---- path condition
-    def add(self, c):
-        if isinstance(c, bool):
-            if not c:
-                raise Infeasible()
-            return
+    def _flush(self):
+        if self.dirty:
+            for vid in self.dirty:
+                self.solver.add(mask_constraint(_VARS[vid], self.masks[vid]))
+            self.dirty.clear()
+
+    def _solver_add(self, c):
+        fv = free_vars(c)
+        if len(fv) > 1:
+            self.entangled |= fv
         self.solver.add(c)
         if self.model is not None:
             try:
@@ -62,7 +348,35 @@ class Ctx:
             except z3.Z3Exception:
                 self.model = None
 
+    def _mask_update(self, vid, newmask):
+        self.masks[vid] = newmask
+        self.dirty.add(vid)
+        if self.model is not None:
+            val = self.model.eval(_VARS[vid], model_completion=True).as_long()
+            if not (newmask >> val) & 1:
+                self.model = None
+
+    def add(self, c):
+        if isinstance(c, bool):
+            if not c:
+                raise Infeasible()
+            return
+        c = _simplify(c)
+        if z3.is_true(c):
+            return
+        if z3.is_false(c):
+            raise Infeasible()
+        r = truth_table(c) if self.use_masks else None
+        if r is not None and r[0] in self.masks:
+            nm = self.masks[r[0]] & r[1]
+            if nm == 0:
+                raise Infeasible()
+            self._mask_update(r[0], nm)
+            return
+        self._solver_add(c)
+
     def _check(self, *assumptions):
+        self._flush()
         t0 = time.time()
         r = self.solver.check(*assumptions)
         STATS['checks'] += 1
@@ -94,35 +408,82 @@ class Ctx:
         k = self.known.get(cid)
         if k is not None:
             return k
+        self.keep.append(cond)
+        r = truth_table(cond) if self.use_masks else None
+        if r is not None and r[0] not in self.masks:
+            r = None
+        return self._decide(cid, r, cond, None)
+
+    def decide_pred(self, x, pred):
+        """decide `value of byte term x is in the set pred` (pred: 256-bit truth table over the value)"""
+        if isinstance(x, int):
+            return bool(pred >> x & 1)
+        key = (x.get_id(), pred)
+        k = self.known.get(key)
+        if k is not None:
+            return k
+        r = _PT.get(key)
+        if r is None:
+            r = (x, _pred_tt(x, pred))
+            _PT[key] = r
+        r = r[1]
+        if r is not None and (not self.use_masks or r[0] not in self.masks):
+            r = None
+        return self._decide(key, r, None, (x, pred))
+
+    def _decide(self, cid, r, cond, lazy):
+        if r is not None:
+            vid, tt = r
+            m = self.masks[vid]
+            t, f = m & tt, m & ~tt & FULL
+            if t == 0 or f == 0:
+                # decided by the unary constraints alone (no decision point, nothing to record)
+                if t == 0 and f == 0:
+                    raise Infeasible()
+                v = t != 0
+                self.known[cid] = v
+                return v
         STATS['decisions'] += 1
         i = len(self.path)
         if i < len(self.prefix):
             v = self.prefix[i]
-            self.path.append(v)
-            self.solver.add(cond if v else z3.Not(cond))
-            self.model = None
-            self.known[cid] = v
-            return v
-        if self.cut_depth is not None and i >= self.cut_depth:
+        elif self.cut_depth is not None and i >= self.cut_depth:
             raise Cut()
-        m = self.ensure_model()
-        mv = z3.is_true(m.eval(cond, model_completion=True))
-        # the model witnesses side `mv`; ask the solver about the other side
-        other = z3.Not(cond) if mv else cond
-        if self._check(other):
-            om = self.solver.model()
+        elif r is not None and r[0] not in self.entangled:
+            # both values are possible for a byte nothing else depends on: exact, no solver call
+            STATS['mask_decisions'] += 1
             STATS['forks'] += 1
-            # continue on True, queue False
             self.pending.append(self.path + [False])
             v = True
-            if not mv:
-                self.model = om
-            # else keep self.model (it satisfies cond)
         else:
-            v = mv
+            if cond is None:
+                cond = _simplify(mask_constraint(lazy[0], lazy[1]))
+                self.keep.append(cond)
+            m = self.ensure_model()
+            mv = z3.is_true(m.eval(cond, model_completion=True))
+            other = z3.Not(cond) if mv else cond
+            if self._check(other):
+                om = self.solver.model()
+                STATS['forks'] += 1
+                self.pending.append(self.path + [False])
+                v = True
+                if not mv:
+                    self.model = om
+            else:
+                v = mv
         self.path.append(v)
-        self.solver.add(cond if v else z3.Not(cond))
         self.known[cid] = v
+        if r is not None:
+            vid, tt = r
+            nm = self.masks[vid] & (tt if v else (FULL & ~tt))
+            if nm == 0:
+                raise Infeasible()
+            self._mask_update(vid, nm)
+        else:
+            if cond is None:
+                cond = _simplify(mask_constraint(lazy[0], lazy[1]))
+                self.keep.append(cond)
+            self._solver_add(cond if v else z3.Not(cond))
         return v
 
     def choice(self, n, tag='choice'):
@@ -130,7 +491,7 @@ class Ctx:
         if n <= 1:
             return 0
         c = self.fresh(8, tag)
-        self.add(z3.ULT(c, n))
+        self._solver_add(z3.ULT(c, n))
         for i in range(n - 1):
             if self.decide(c == i):
                 return i
@@ -149,14 +510,17 @@ class Ctx:
         if z3.is_true(claim):
             return None
         if self.smtlog is not None:
-            self.smtlog.append((self.solver.assertions(), claim))
+            self._flush()
+            self.smtlog.append((list(self.solver.assertions()), claim))
         if self._check(z3.Not(claim)):
             return self.solver.model()
         return None
 
-    def feasible(self, cond):
-        if isinstance(cond, bool):
-            return cond
+    def feasible(self, cond=True):
+        if cond is True:
+            return self._check()
+        if cond is False:
+            return False
         return self._check(cond)
 
     def witness(self, model=None):
@@ -169,7 +533,3 @@ class Ctx:
             else:
                 out[name] = val.as_long()
         return out
-
-
-class Cut(Exception):
-    """exploration stopped at the split depth; the prefix becomes a work item"""
